@@ -115,6 +115,11 @@ func check(id, tier, repo, evdir, findingsPath string, writeEvidence bool) int {
 		}
 	}
 	res.Evidence.WallS = time.Since(t0).Seconds()
+	if os.Getenv("ASV_VERBOSE") != "" {
+		for _, o := range c.Obs {
+			fmt.Printf("  OB %-12s [%s] %s @%s :: %s\n", o.Status, o.Rule, o.Construct, o.Pos, o.Detail)
+		}
+	}
 	for _, l := range res.Lines {
 		fmt.Println(l)
 	}
